@@ -176,7 +176,8 @@ def new_case(ctx, script, **dom_kw):
     """-> (driver, runs after construction)."""
     dom = CaseDomain(ctx.classes, script, **dom_kw)
     d = so.Driver(ctx, case_class(ctx), dom, depth=60)
-    st0 = State([("self._testMethodName", ("const", "test_it")), ("self.test_it", user("test")), ("self.setUp", user("setUp")), ("self.tearDown", user("tearDown"))])
+    # (unittest.TestCase.__init__, which testtools' constructor upcalls, gives every case an empty list of cleanups of its own)
+    st0 = State([("self._testMethodName", ("const", "test_it")), ("self.test_it", user("test")), ("self.setUp", user("setUp")), ("self.tearDown", user("tearDown")), ("self._cleanups", ("tuple",))])
     return d, d.construct([("const", "test_it")], state=st0)
 
 
